@@ -22,6 +22,20 @@ def A(s, h):
     return f"({s}, {h})"
 
 
+def SP(rng, s, h):
+    """An address in one of several spellings (only used for keys the
+    documentation says are parsed as tuples: sensitive hosts, host
+    firewalls)."""
+    return rng.choice([f"({s}, {h})", f"({s}, {h})", f"({s}, {h})",
+                       f"({s},{h})", f"( {s}, {h} )", f"({s} , {h})"])
+
+
+def reader_addr(k):
+    import re
+    m = re.match(r"^\(\s*(-?\d+)\s*,\s*(-?\d+)\s*\)$", k.strip())
+    return int(m.group(1)), int(m.group(2))
+
+
 def _topology(rng, n, shape, n_public):
     """Symmetric, self-connected adjacency matrix over n subnets + internet."""
     T = [[1 if i == j else 0 for j in range(n + 1)] for i in range(n + 1)]
@@ -71,7 +85,7 @@ def _topology(rng, n, shape, n_public):
 
 def gen_doc(rng, shape=None, max_subnets=5, max_hosts=4, n_public=None,
             deny_rate=0.3, open_firewall=None, step_limit="mix",
-            cost_domain="any", big=False, asym=False):
+            cost_domain="any", big=False, asym=False, like=None):
     if big:
         max_subnets, max_hosts = 8, 6
     n = rng.randint(1, max_subnets)
@@ -81,6 +95,14 @@ def gen_doc(rng, shape=None, max_subnets=5, max_hosts=4, n_public=None,
     if n_public is None:
         n_public = rng.choice([1, 1, 1, 2, 2, 3])
     sizes = [rng.randint(1, max_hosts) for _ in range(n)]
+    if like is not None:
+        # same names, number of subnets and largest subnet (= same vector
+        # layout), other subnet sizes
+        n = len(like["subnets"])
+        sizes = list(like["subnets"])
+        rng.shuffle(sizes)
+        if sizes == list(like["subnets"]) and n > 1:
+            sizes = sizes[1:] + sizes[:1]
     T = _topology(rng, n, shape, n_public)
     if asym and n >= 2:
         # outside the documented assumption (the loader accepts it): some
@@ -94,9 +116,12 @@ def gen_doc(rng, shape=None, max_subnets=5, max_hosts=4, n_public=None,
     oss = rng.sample(OS_POOL, rng.randint(1, 3))
     srvs = rng.sample(SRV_POOL, rng.randint(1, 4))
     procs = rng.sample(PROC_POOL, rng.randint(1, 3))
-    if rng.random() < 0.05:
+    if rng.random() < 0.1:
         # name coincidence: a process called like a service
         procs[0] = srvs[0]
+    if like is not None:
+        oss, srvs, procs = (list(like["os"]), list(like["services"]),
+                            list(like["processes"]))
     addrs = [(s + 1, h) for s in range(n) for h in range(sizes[s])]
 
     doc = {}
@@ -108,6 +133,13 @@ def gen_doc(rng, shape=None, max_subnets=5, max_hosts=4, n_public=None,
     sens = rng.sample(addrs, k)
     doc["sensitive_hosts"] = {
         A(*a): rng.choice([100, 10, 1, 50, 0.5, 2.5, 1000]) for a in sens}
+    sens_value = {reader_addr(k): v
+                  for k, v in doc["sensitive_hosts"].items()}
+    if rng.random() < 0.1:
+        # other spellings of an address are valid where the key is parsed
+        doc["sensitive_hosts"] = {
+            SP(rng, *reader_addr(k)): v
+            for k, v in doc["sensitive_hosts"].items()}
     doc["os"] = oss
     doc["services"] = srvs
     doc["processes"] = procs
@@ -166,11 +198,12 @@ def gen_doc(rng, shape=None, max_subnets=5, max_hosts=4, n_public=None,
         if rng.random() < deny_rate:
             fw = {}
             for src in rng.sample(addrs, rng.randint(1, min(3, len(addrs)))):
-                fw[A(*src)] = rng.sample(srvs, rng.randint(0, len(srvs)))
+                fw[SP(rng, *src)] = rng.sample(srvs,
+                                               rng.randint(0, len(srvs)))
             h["firewall"] = fw
         if a in sens:
             if rng.random() < 0.3:
-                h["value"] = doc["sensitive_hosts"][A(*a)]
+                h["value"] = sens_value[a]
         else:
             r = rng.random()
             if r < 0.5:
@@ -257,6 +290,24 @@ def _emit_value(key, v, indent, rng):
     return [f"{pad}{key}: {_scalar(v)}"]
 
 
+def _emit_hosts_with_anchors(hosts, rng):
+    """host_configurations with YAML anchors/aliases for repeated blocks."""
+    import json
+    lines = ["host_configurations:"]
+    seen = {}
+    for k, h in hosts.items():
+        sig = json.dumps(h, sort_keys=True, default=str)
+        if sig in seen:
+            lines.append(f"  {k}: *{seen[sig]}")
+            continue
+        name = f"cfg{len(seen)}"
+        seen[sig] = name
+        lines.append(f"  {k}: &{name}")
+        for k2, v2 in h.items():
+            lines.extend(_emit_value(k2, v2, 4, rng))
+    return lines
+
+
 def emit(doc, rng=None):
     keys = list(doc.keys())
     if rng is not None and rng.random() < 0.15:
@@ -264,8 +315,14 @@ def emit(doc, rng=None):
     lines = []
     if rng is not None and rng.random() < 0.5:
         lines.append("# generated by dsim.docgen")
+    anchors = rng is not None and rng.random() < 0.06
     for k in keys:
-        lines.extend(_emit_value(k, doc[k], 0, rng))
+        if k == "host_configurations" and anchors and \
+                isinstance(doc[k], dict) and doc[k] and \
+                all(isinstance(h, dict) for h in doc[k].values()):
+            lines.extend(_emit_hosts_with_anchors(doc[k], rng))
+        else:
+            lines.extend(_emit_value(k, doc[k], 0, rng))
     return "\n".join(lines) + "\n"
 
 
